@@ -7,6 +7,8 @@ from vlib import *
 from props.gdscommon import *
 
 HARNESS_BINS = ["c01"]
+# lemma files whose Qed-closed obligations belong to this property (Properties/C03.v holds the theorems)
+PROOF_FILES = ["Gds/GdsBytes_proofs.v", "Gds/GdsWrite_proofs.v", "Gds/GdsWFits_proofs.v", "Gds/GdsWTables_proofs.v", "Gds/GdsRtUnfold_proofs.v", "Gds/GdsRtRead_proofs.v", "Gds/GdsRoundtrip_proofs.v", "Gds/GdsRtSpec_proofs.v", "Gds/GdsRtUnsupp_proofs.v", "Gds/GdsRtUnsuppKind_proofs.v", "Gds/GdsRtStrip_proofs.v"]
 
 FOREIGN = ["/repo/gds21/resources/sample1.gds", "/repo/gds21/resources/invalid_dates.gds",
            "/repo/layout21converters/resources/sky130_fd_sc_hd__dfxtp_1.gds"]
